@@ -189,9 +189,9 @@ theorem restore_exact_checked [DecidableEq β] (hashOf : List β → H) (hinj : 
 /-- Non-vacuity: a group of two backups; the target's `b` is stored in the earlier backup, its `c` duplicates its own
 `a`, `e` is empty; all hypotheses of `restore_exact` hold. -/
 example :
-    let b0 : LBackup Nat := ⟨"b0", [.dir "d" {}, .file "d/old" { mtime := 3 } [7, 7]], fun _ => true⟩
+    let b0 : LBackup Nat := ⟨"b0", [.dir "d" {}, .file "d/old" { mtime := 3 } [7, 7]], fun _ => true, fun _ => [0, 0]⟩
     let b1 : LBackup Nat := ⟨"b1", [.dir "d" { mode := 493 }, .file "d/a" {} [1, 2, 3], .dir "d/s" {}, .file "d/s/b" { mtime := -5 } [7, 7],
-        .file "d/s/c" {} [1, 2, 3], .file "d/e" {} [], .symlink "d/l" {} "a"], fun p => p == "d/a"⟩
+        .file "d/s/c" {} [1, 2, 3], .file "d/e" {} [], .symlink "d/l" {} "a"], fun p => p == "d/a", fun _ => [0]⟩
     (∀ (j : Nat) (lb : LBackup Nat), j ≤ 1 → [b0, b1][j]? = some lb → WFArchive lb.es) ∧ ResolvableL [b0, b1] 1 b1 := by
   intro b0 b1
   constructor
